@@ -339,6 +339,9 @@ struct Upstream {
     other_queries: Arc<AtomicUsize>,
 }
 
+/// every DNSKEY query is answered with an error (scripted upstream failure)
+static FAIL_DNSKEY: std::sync::atomic::AtomicBool = std::sync::atomic::AtomicBool::new(false);
+
 impl DnsHandle for Upstream {
     type Response = Pin<Box<dyn Stream<Item = Result<DnsResponse, NetError>> + Send>>;
     type Runtime = MockRuntime;
@@ -360,11 +363,21 @@ impl DnsHandle for Upstream {
                 answers = a.clone();
             }
         }
+        if q.as_ref().map(|q| q.query_type == RecordType::DNSKEY).unwrap_or(false) && FAIL_DNSKEY.load(AtOrd::SeqCst) {
+            return Box::pin(stream::once(async move { Err(NetError::from("scripted upstream failure")) }));
+        }
         let mut msg = msg.into_response();
         for a in answers {
             msg.add_answer(a);
         }
-        let r = DnsResponse::from_message(msg).map_err(NetError::from);
+        // what a transport would deliver: the response goes through the wire encoding (name compression, RDATA
+        // decoders of RRSIG / DNSKEY / …); a message that cannot be encoded is handed over as it is
+        let r = match msg.to_vec().ok().and_then(|bytes| DnsResponse::from_buffer(bytes).ok()) {
+            // only if the decoded message carries the same records (some generated RDATA, e.g. a TXT without
+            // strings, has no decodable wire form: C01/C02 territory)
+            Some(r) if r.answers == msg.answers => Ok(r),
+            _ => DnsResponse::from_message(msg).map_err(NetError::from),
+        };
         Box::pin(stream::once(async move { r }))
     }
 }
@@ -493,8 +506,19 @@ pub fn exec(line: &str, rec: &mut Recorder) {
         }
         Ok(None) => rec.stat("skipped.unparsable-case"),
         Err(p) => {
-            let idx = rec.case(line.to_string(), format!("panic {p}"));
-            rec.fail(idx, format!("panic: {p}"), "");
+            // `vkp` lines have no model side; open known finding: decode_public_key() debug_assert!s that the
+            // DNSKEY's algorithm is supported — in a build with debug assertions a DNSKEY + RRSIG pair of an
+            // unsupported algorithm panics the validator instead of being Bogus
+            let unsupported_key_alg = t.get(0) == Some(&"vkp")
+                && t.get(3).and_then(|k| k.split(';').nth(2)).and_then(|a| a.parse::<u8>().ok()).map(|a| !Algorithm::from_u8(a).is_supported()).unwrap_or(false);
+            let class = if unsupported_key_alg && p.contains("algorithm.is_supported()") { "debug-assert-unsupported-algorithm" } else { "" };
+            let out = if t[0] == "vkp" { "~".to_string() } else { format!("panic {p}") };
+            if out == "~" {
+                rec.impl_only += 1;
+            }
+            let idx = rec.case(line.to_string(), out);
+            rec.stat(&format!("op.{}", t[0]));
+            rec.fail(idx, format!("panic: {p}"), class);
         }
     }
 }
@@ -504,6 +528,16 @@ fn simple(line: String, out: String) -> Option<Out> {
 }
 
 fn exec_inner(t: &[&str]) -> Option<Out> {
+    // `hq QNAME <h arguments>`: the `h` step with the RRset arriving in the response to the query `QNAME DNSKEY`
+    if t.len() > 2 && t[0] == "hq" {
+        let mut v = vec!["h"];
+        v.extend_from_slice(&t[2..]);
+        return exec_with(&v, Some(t[1]));
+    }
+    exec_with(t, None)
+}
+
+fn exec_with(t: &[&str], orig: Option<&str>) -> Option<Out> {
     match t {
         ["serial", a, b] => {
             let (x, y): (u32, u32) = (a.parse().ok()?, b.parse().ok()?);
@@ -523,12 +557,126 @@ fn exec_inner(t: &[&str]) -> Option<Out> {
             }
             Some(o)
         }
+        ["sadd", a, b2] => {
+            let (x, y): (u32, u32) = (a.parse().ok()?, b2.parse().ok()?);
+            let got = (SerialNumber::new(x) + SerialNumber::from(y)).get();
+            let mut o = simple(format!("sadd {x} {y}"), got.to_string())?;
+            if got != x.wrapping_add(y) {
+                o.fails.push(("SerialNumber addition is not addition modulo 2^32 (RFC 1982 §3.1)".into(), String::new()));
+            }
+            Some(o)
+        }
+        ["sx", kind, key, sg, recs @ ..] => {
+            // implementation only: edge paths of DnssecDnsHandle::send around a correctly signed answer —
+            //   update   a non-Query opcode is passed through unvalidated: nothing may come back marked Secure
+            //   noquery  a request without a question is refused
+            //   depth0   max_request_depth = 0: the nested DNSKEY lookup is refused ("exceeded max validation
+            //            depth") → the answer is Bogus, never Secure, and nothing is cached
+            let k = K::parse(key)?;
+            let s = S::parse(sg)?;
+            let recs_n: Vec<Rec> = recs.iter().map(|r| Rec::parse(r)).collect::<Option<Vec<_>>>()?;
+            let records: Vec<Record> = recs_n.iter().map(|r| r.to_record()).collect::<Option<Vec<_>>>()?;
+            let first = recs_n.first()?;
+            let name_h = first.name.to_name()?;
+            let ty = first.rtype;
+            let mut ta = TrustAnchors::empty();
+            ta.insert(&PublicKeyBuf::new(k.pk.clone(), Algorithm::from_u8(k.alg)));
+            let up = Upstream { script: Arc::new(Mutex::new(Script::default())), dnskey_queries: Arc::new(AtomicUsize::new(0)), other_queries: Arc::new(AtomicUsize::new(0)) };
+            {
+                let mut sc = up.script.lock().unwrap();
+                let mut ans = records.clone();
+                ans.push(s.to_record()?);
+                sc.answers.insert((name_tok(&name_h.to_lowercase()), ty), ans);
+                sc.answers.insert((name_tok(&s.signer.to_name()?.to_lowercase()), 48), vec![k.to_record()?]);
+            }
+            let ta = Arc::new(ta);
+            let handle = DnssecDnsHandle::with_trust_anchor(up.clone(), ta.clone());
+            CLOCK.store(s.inc.wrapping_add(1) as u64, AtOrd::SeqCst);
+            let rt = tokio::runtime::Builder::new_current_thread().enable_all().build().ok()?;
+            let mut opts = DnsRequestOptions::default();
+            let query = Query::new(name_h.clone(), RecordType::from(ty));
+            let mut req = DnsRequest::from_query(query.clone(), opts);
+            match *kind {
+                "update" => req.op_code = hickory_proto::op::OpCode::Update,
+                "noquery" => req.queries.clear(),
+                "depth0" => {
+                    opts.max_request_depth = 0;
+                    req = DnsRequest::from_query(query.clone(), opts);
+                }
+                "plain" => {}
+                _ => return None,
+            }
+            let mut fails = vec![];
+            let mut outcome = Vec::new();
+            for round in 0..2 {
+                let h2 = handle.clone();
+                let rq = req.clone();
+                let res = rt.block_on(async move { h2.send(rq).first_answer().await });
+                let secure = match &res {
+                    Ok(r) => r.answers.iter().any(|a| a.proof == Proof::Secure),
+                    Err(NetError::Dns(DnsError::Nsec { response, .. })) => response.answers.iter().any(|a| a.proof == Proof::Secure),
+                    Err(_) => false,
+                };
+                outcome.push(match (&res, secure) {
+                    (Err(_), _) => "err",
+                    (Ok(_), true) => "secure",
+                    (Ok(_), false) => "not-secure",
+                });
+                match *kind {
+                    "plain" => {}
+                    "noquery" => {
+                        if res.is_ok() {
+                            fails.push(("a request without a question was answered".into(), String::new()));
+                        }
+                    }
+                    _ => {
+                        if secure {
+                            fails.push((format!("send edge path `{kind}` (round {round}) returned records marked Secure"), String::new()));
+                        }
+                    }
+                }
+            }
+            // after the refused nested lookups nothing must have been cached: the same handle validates normally
+            if *kind == "depth0" {
+                let h2 = handle.clone();
+                let rq = DnsRequest::from_query(query.clone(), DnsRequestOptions::default());
+                let res = rt.block_on(async move { h2.send(rq).first_answer().await });
+                let secure = res.as_ref().map(|r| r.answers.iter().any(|a| a.proof == Proof::Secure)).unwrap_or(false);
+                outcome.push(if secure { "then-secure" } else { "then-not-secure" });
+                // what a handle without any history says about this answer (e.g. a DS RRset signed by its own owner is
+                // never Secure)
+                let fresh_handle = DnssecDnsHandle::with_trust_anchor(up.clone(), ta.clone());
+                let rq = DnsRequest::from_query(query.clone(), DnsRequestOptions::default());
+                let res = rt.block_on(async move { fresh_handle.send(rq).first_answer().await });
+                let expected = res.as_ref().map(|r| r.answers.iter().any(|a| a.proof == Proof::Secure)).unwrap_or(false);
+                if !secure && expected {
+                    fails.push(("a Net error of the DNSKEY lookup was cached: the correctly signed answer is not Secure afterwards on the same handle".into(), String::new()));
+                }
+            }
+            let line = format!("sx {kind} {} {}{}", k.tok(), s.tok(), recs_n.iter().map(|r| format!(" {}", r.tok().unwrap_or_default())).collect::<String>());
+            Some(Out { line, out: "~".into(), fails, stats: vec![format!("sx.{kind}.{}", outcome.join("+"))], nontrivial: true })
+        }
         ["tag", h] => {
             let b = unhex(h)?;
             let got = DNSKEY::calculate_key_tag_internal(&b);
             let mut o = simple(format!("tag {}", hex(&b)), got.to_string())?;
             if got != ref_key_tag(&b) {
                 o.fails.push(("key tag differs from RFC 4034 Appendix B".into(), String::new()));
+            }
+            // the flag accessors the validator and the signer consult (RFC 4034 §2.1.1, RFC 5011 §3), and the
+            // constructor from the three booleans
+            if b.len() >= 4 {
+                let flags = u16::from_be_bytes([b[0], b[1]]);
+                let pk = PublicKeyBuf::new(b[4..].to_vec(), Algorithm::from_u8(b[3]));
+                let k = DNSKEY::with_flags(flags, pk.clone());
+                let (z, sep, rev) = (flags & 0x0100 != 0, flags & 0x0001 != 0, flags & 0x0080 != 0);
+                if (k.zone_key(), k.secure_entry_point(), k.revoke()) != (z, sep, rev) || k.is_key_signing_key() != (z && sep && !rev) || k.flags() != flags {
+                    o.fails.push((format!("DNSKEY flag accessors disagree with the flags field {flags:#06x}"), String::new()));
+                }
+                let k2 = DNSKEY::new(z, sep, rev, pk);
+                if k2.flags() != flags & 0x0181 || (k2.zone_key(), k2.secure_entry_point(), k2.revoke()) != (z, sep, rev) {
+                    o.fails.push((format!("DNSKEY::new({z}, {sep}, {rev}) has flags {:#06x}", k2.flags()), String::new()));
+                }
             }
             Some(o)
         }
@@ -539,6 +687,20 @@ fn exec_inner(t: &[&str]) -> Option<Out> {
             let r = Record::from_rdata(Name::root(), rttl, RData::A(hickory_proto::rr::rdata::A::new(1, 2, 3, 4)));
             let got = rrsig.authenticated_ttl(&r, now);
             simple(format!("attl {exp} {ottl} {rttl} {now}"), got.to_string())
+        }
+        ["vkp", rest @ ..] => {
+            // implementation only: a `vk` line of the unsupported-algorithm family (DNSKEY and RRSIG name the same
+            // unsupported algorithm, everything else fits): never Secure, never a panic
+            let mut v: Vec<&str> = vec!["vk"];
+            v.extend_from_slice(rest);
+            let mut o = exec_inner(&v)?;
+            if o.out.starts_with("ok S") {
+                o.fails.push(("Secure with a key of an unsupported algorithm".into(), String::new()));
+            }
+            o.stats.push(format!("vkp.{}", o.out.split(' ').take(2).collect::<Vec<_>>().join("-")));
+            o.line = format!("vkp {}", o.line.strip_prefix("vk ")?);
+            o.out = "~".into();
+            Some(o)
         }
         ["vkx", expect, rest @ ..] => {
             // an external vector (tools/gen_rsa_vectors.py): a `vk` line whose verdict must be Secure (EXPECT = OK)
@@ -659,7 +821,9 @@ fn exec_inner(t: &[&str]) -> Option<Out> {
             let clock: u64 = now.parse().ok()?;
             let now: u32 = clock as u32;
             let inst: u64 = inst.parse().ok()?;
-            let ks: Vec<K> = if *keys == "-" {
+            // KEYS = `!`: every DNSKEY lookup of this request fails upstream
+            let net_error = *keys == "!";
+            let ks: Vec<K> = if *keys == "-" || net_error {
                 vec![]
             } else {
                 keys.split('|')
@@ -677,16 +841,29 @@ fn exec_inner(t: &[&str]) -> Option<Out> {
             let records: Vec<Record> = recs_n.iter().map(|r| r.to_record()).collect::<Option<Vec<_>>>()?;
             let srecs: Vec<Record> = sigs.iter().map(|s| s.to_record()).collect::<Option<Vec<_>>>()?;
             let name_h = name_n.to_name()?;
-            let query = Query::new(name_h.clone(), RecordType::from(ty));
+            // the original query: the RRset's own name and type, or (`hq`) a DNSKEY query whose response also
+            // carries this RRset
+            let orig_n: Option<N> = match orig {
+                Some(q) => Some(N::parse(q)?),
+                None => None,
+            };
+            let query = match &orig_n {
+                Some(q) => Query::new(q.to_name()?, RecordType::DNSKEY),
+                None => Query::new(name_h.clone(), RecordType::from(ty)),
+            };
             let ck = hex(&cache_key_stream(&query, &name_h, RecordType::from(ty), &records, &srecs));
             let orcs = if ks.is_empty() {
                 "-".to_string()
             } else {
                 sigs.iter().map(|s| ks.iter().map(|k| oracle_tok(k, s, &name_n, &records)).collect::<Vec<_>>().join("|")).collect::<Vec<_>>().join(",")
             };
-            let keys_tok = if ks.is_empty() { "-".to_string() } else { ks.iter().map(|k| format!("{};S", k.tok())).collect::<Vec<_>>().join("|") };
+            let keys_tok = if net_error { "!".to_string() } else if ks.is_empty() { "-".to_string() } else { ks.iter().map(|k| format!("{};S", k.tok())).collect::<Vec<_>>().join("|") };
             let line = format!(
-                "h {clock} {inst} {ck} {keys_tok} {} {} {ty} {orcs}{}",
+                "{} {clock} {inst} {ck} {keys_tok} {} {} {ty} {orcs}{}",
+                match &orig_n {
+                    Some(q) => format!("hq {}", q.tok()),
+                    None => "h".to_string(),
+                },
                 sigs.iter().map(|s| s.tok()).collect::<Vec<_>>().join("|"),
                 name_n.tok(),
                 recs_n.iter().map(|r| format!(" {}", r.tok().unwrap_or_default())).collect::<String>()
@@ -697,9 +874,19 @@ fn exec_inner(t: &[&str]) -> Option<Out> {
                 let owner_l = name_n.lower_labels();
                 let in_zone = signer_l.len() <= owner_l.len() && signer_l.iter().rev().zip(owner_l.iter().rev()).all(|(a, b2)| a == b2);
                 let ds_self = ty == 43 && !owner_l.is_empty() && signer_l == owner_l && s.signer.fqdn == name_n.fqdn;
-                in_zone && !ds_self && i <= 8
+                // "Break verification cycle": the DNSKEY query for this signer is the original query again
+                let cycle = orig_n.as_ref().map(|q| same_name_ci(q, &s.signer)).unwrap_or(false);
+                in_zone && !ds_self && i <= 8 && !cycle
             };
-            let first_cand: Option<usize> = sigs.iter().enumerate().find(|(i, s)| is_candidate(*i, s)).map(|(i, _)| i);
+            // select_ok: a candidate whose DNSKEY lookup ends in an error (upstream failure, or no DNSKEY at the
+            // signer's name in the response) passes the turn to the next one
+            let lookup_fails = |s: &S| net_error || !ks.iter().any(|k| same_name_ci(&k.owner, &s.signer));
+            let first_cand: Option<usize> = sigs
+                .iter()
+                .enumerate()
+                .find(|(i, s)| is_candidate(*i, s) && !lookup_fails(s))
+                .or_else(|| sigs.iter().enumerate().find(|(i, s)| is_candidate(*i, s)))
+                .map(|(i, _)| i);
             HIST.with(|hcell| {
                 let mut hb = hcell.borrow_mut();
                 let h = hb.as_mut()?;
@@ -721,12 +908,21 @@ fn exec_inner(t: &[&str]) -> Option<Out> {
                         let signer = s.signer.to_name()?;
                         sc.answers.insert((name_tok(&signer.to_lowercase()), 48), ks.iter().map(|k| k.to_record()).collect::<Option<Vec<_>>>()?);
                     }
+                    if let Some(q) = &orig_n {
+                        // the response to the original DNSKEY query: the keys at that name, then the RRset and its RRSIGs
+                        let mut full: Vec<Record> = ks.iter().filter(|k| same_name_ci(&k.owner, q)).map(|k| k.to_record()).collect::<Option<Vec<_>>>()?;
+                        full.extend(sc.answers.remove(&(name_tok(&name_h.to_lowercase()), ty)).unwrap_or_default());
+                        sc.answers.insert((name_tok(&q.to_name()?.to_lowercase()), 48), full);
+                    }
                 }
                 h.up.dnskey_queries.store(0, AtOrd::SeqCst);
+                FAIL_DNSKEY.store(net_error, AtOrd::SeqCst);
                 let req = DnsRequest::from_query(query.clone(), DnsRequestOptions::default());
                 let handle = h.handle.clone();
                 let res = h.rt.block_on(async move { handle.send(req).first_answer().await });
-                let fresh = h.up.dnskey_queries.load(AtOrd::SeqCst) > 0;
+                FAIL_DNSKEY.store(false, AtOrd::SeqCst);
+                // (the original query of an `hq` step is itself a DNSKEY query)
+                let fresh = h.up.dnskey_queries.load(AtOrd::SeqCst) > orig_n.is_some() as usize;
                 let msg: Message = match res {
                     Ok(r) => r.into_message(),
                     Err(NetError::Dns(DnsError::Nsec { response, .. })) => response.into_message(),
@@ -744,6 +940,8 @@ fn exec_inner(t: &[&str]) -> Option<Out> {
                             marked.push(sig_outs.len());
                         }
                         sig_outs.push(format!("{} {}", proof_tok(a.proof), a.ttl));
+                    } else if orig_n.is_some() && a.record_type() == RecordType::DNSKEY {
+                        // the DNSKEY RRset the original query asked for (verify_dnskey_rrset: C07)
                     } else {
                         proofs.push(a.proof);
                         ttls.push(a.ttl);
@@ -767,7 +965,7 @@ fn exec_inner(t: &[&str]) -> Option<Out> {
                 let out = format!(
                     "{} {} {} sig {sig_out} dev={}{}",
                     if nolookup { "nolookup" } else if fresh { "fresh" } else { "cached" },
-                    proof_tok(p0),
+                    if proofs.is_empty() { "-" } else { proof_tok(p0) },
                     ttls.iter().map(|t| t.to_string()).collect::<Vec<_>>().join(" "),
                     b(dev),
                     b(dev2)
@@ -1308,7 +1506,7 @@ fn mutate_rd(rd: &mut RD, r: &mut Rng) -> &'static str {
 
 /// applies one mutation; returns its label
 fn mutate(b: &mut Base, kproof: &mut Proof, r: &mut Rng) -> String {
-    let m = r.below(46);
+    let m = r.below(47);
     let lab: String = match m {
         0..=3 => "none".into(),
         4..=9 => {
@@ -1472,7 +1670,12 @@ fn mutate(b: &mut Base, kproof: &mut Proof, r: &mut Rng) -> String {
             b.now = *r.pick(&clocks);
             "window.empty (expiration before inception)".into()
         }
-        _ => inject_other_class(&mut b.recs, r),
+        43..=45 => inject_other_class(&mut b.recs, r),
+        _ => {
+            // the RRSIG alone, without a single record of the RRset
+            b.recs.clear();
+            "rrset.empty".into()
+        }
     };
     lab
 }
@@ -1913,6 +2116,171 @@ fn gen_history(r: &mut Rng, kind: u64) -> Option<Vec<String>> {
                 }
             }
         }
+        17 => {
+            // more RRSIGs than MAX_RRSIGS_PER_RRSET: non-candidates (foreign signer) in front, the verifying RRSIG at
+            // index 7 … 11 — beyond index 8 it is never looked at
+            resign(&mut b);
+            let total = r.range(9, 12) as usize;
+            let at = r.range(7, total as u64 - 1) as usize;
+            let mut sigs: Vec<S> = vec![];
+            for i in 0..total {
+                if i == at {
+                    sigs.push(b.s.clone());
+                } else {
+                    let mut j = b.s.clone();
+                    j.signer = c05::nm(*r.pick(&["unrelated.test.", "x.y.z."]));
+                    j.tag = j.tag.wrapping_add(i as u16 + 1);
+                    j.sig = r.bytes(16);
+                    sigs.push(j);
+                }
+            }
+            lines.push(h_line_multi(t0 as u64, 0, &keys, &sigs, &b.name, b.ty, &b.recs)?);
+            lines.push(h_line_multi(t0 as u64, 0, &keys, &sigs, &b.name, b.ty, &b.recs)?);
+        }
+        18 => {
+            // DNSKEY owners: the answer to the signer's DNSKEY query carries the verifying key under another owner
+            // (must not count), alone or next to the properly owned key, in both orders
+            resign(&mut b);
+            let mut foreign = b.k.clone();
+            foreign.owner = c05::nm(*r.pick(&["other.test.", "com.", "."]));
+            if same_name_ci(&foreign.owner, &b.k.owner) {
+                foreign.owner = c05::nm("other.test.");
+            }
+            lines.push(h_line(t0, 0, &[foreign.clone()], &b.s, &b.name, b.ty, &b.recs)?);
+            let pair = if r.chance(1, 2) { vec![foreign.clone(), b.k.clone()] } else { vec![b.k.clone(), foreign.clone()] };
+            // another TTL: a new look-up is forced by changing the records' TTL? no — the cache key ignores TTLs; a
+            // different RDATA order makes a different key
+            let mut recs2 = b.recs.clone();
+            recs2.reverse();
+            lines.push(h_line(t0, 0, &pair, &b.s, &b.name, b.ty, if b.recs.len() > 1 { &recs2 } else { &b.recs })?);
+        }
+        19 => {
+            // the DNSKEY lookup fails (upstream error): Bogus for this response, NOT cached — the next, successful
+            // validation is fresh and Secure; and a cached Secure verdict is served without any lookup
+            resign(&mut b);
+            let fail = |b: &Base| h_line_multi(t0 as u64, 0, &[], std::slice::from_ref(&b.s), &b.name, b.ty, &b.recs).map(|l| {
+                let mut t: Vec<String> = l.split(' ').map(String::from).collect();
+                t[4] = "!".into();
+                t.join(" ")
+            });
+            if r.chance(1, 2) {
+                lines.push(h_line(t0, 0, &keys, &b.s, &b.name, b.ty, &b.recs)?);
+                lines.push(fail(&b)?);
+            } else {
+                lines.push(fail(&b)?);
+                lines.push(fail(&b)?);
+                lines.push(h_line(t0, 0, &keys, &b.s, &b.name, b.ty, &b.recs)?);
+                lines.push(fail(&b)?);
+            }
+        }
+        20 => {
+            // an RRSIG without a single record of the type it covers: Bogus, nothing to cache
+            resign(&mut b);
+            lines.push(h_line(t0, 0, &keys, &b.s, &b.name, b.ty, &[])?);
+            lines.push(h_line(t0, 0, &keys, &b.s, &b.name, b.ty, &[])?);
+            lines.push(h_line(t0, 0, &keys, &b.s, &b.name, b.ty, &b.recs)?);
+        }
+        22 => {
+            // select_ok over the candidates: an RRSIG naming an ancestor (or the owner) at which upstream has no
+            // DNSKEY is a candidate whose lookup ends in an error — the turn passes to the next candidate; when
+            // every lookup fails the RRset is Bogus and nothing is cached
+            resign(&mut b);
+            let good = b.s.clone();
+            let mut alt = b.s.signer.clone();
+            if alt.labels.is_empty() {
+                alt = b.name.clone();
+            } else {
+                alt.labels.remove(0);
+            }
+            if same_name_ci(&alt, &b.s.signer) {
+                return None;
+            }
+            let mut failing = good.clone();
+            failing.signer = alt;
+            failing.exp = failing.exp.wrapping_add(100_000);
+            failing.ottl = 900_000;
+            let bytes = failing.ref_case(&b.name, 1, &b.recs).ref_signed_data()?;
+            failing.sig = sign_with(b.ki, &bytes);
+            let mut failing2 = failing.clone();
+            failing2.tag = failing2.tag.wrapping_add(1);
+            match r.below(4) {
+                0 => {
+                    for _ in 0..2 {
+                        lines.push(h_line_multi(t0 as u64, 0, &keys, &[failing.clone(), good.clone()], &b.name, b.ty, &b.recs)?);
+                    }
+                }
+                1 => {
+                    lines.push(h_line_multi(t0 as u64, 0, &keys, &[failing.clone(), failing2.clone(), good.clone()], &b.name, b.ty, &b.recs)?);
+                    lines.push(h_line_multi(t0.wrapping_add(life + 5) as u64, 0, &keys, &[failing.clone(), failing2.clone(), good.clone()], &b.name, b.ty, &b.recs)?);
+                }
+                2 => {
+                    // every lookup fails: not cached; the key then appears at that name too
+                    for _ in 0..2 {
+                        lines.push(h_line_multi(t0 as u64, 0, &keys, &[failing.clone(), failing2.clone()], &b.name, b.ty, &b.recs)?);
+                    }
+                    let mut k2 = b.k.clone();
+                    k2.owner = failing.signer.clone();
+                    lines.push(h_line_multi(t0 as u64, 0, &[b.k.clone(), k2], &[failing.clone(), failing2.clone()], &b.name, b.ty, &b.recs)?);
+                }
+                _ => {
+                    lines.push(h_line_multi(t0 as u64, 0, &keys, &[good.clone(), failing.clone()], &b.name, b.ty, &b.recs)?);
+                    lines.push(h_line_multi(t0 as u64, 0, &keys, &[failing.clone()], &b.name, b.ty, &b.recs)?);
+                }
+            }
+        }
+        23 => {
+            // "Break verification cycle": the RRset arrives in the response to the query `SIGNER DNSKEY`; the DNSKEY
+            // lookup its RRSIG needs would be that query again — the RRSIG is skipped (Bogus, no lookup), also when
+            // it is genuine; an RRSIG of another signer in the same response is evaluated as usual
+            resign(&mut b);
+            let good = b.s.clone();
+            let to_hq = |l: String, q: &N| l.replacen("h ", &format!("hq {} ", q.tok()), 1);
+            let mut q = b.s.signer.clone();
+            if r.chance(1, 3) {
+                // letter case of the query name does not matter
+                for l in q.labels.iter_mut() {
+                    l.make_ascii_uppercase();
+                }
+            }
+            match r.below(3) {
+                0 => {
+                    lines.push(to_hq(h_line_multi(t0 as u64, 0, &keys, std::slice::from_ref(&good), &b.name, b.ty, &b.recs)?, &q));
+                    // the same RRset asked for directly is Secure
+                    lines.push(h_line_multi(t0 as u64, 0, &keys, std::slice::from_ref(&good), &b.name, b.ty, &b.recs)?);
+                    lines.push(to_hq(h_line_multi(t0 as u64, 0, &keys, std::slice::from_ref(&good), &b.name, b.ty, &b.recs)?, &q));
+                }
+                1 => {
+                    // a second RRSIG by an ancestor zone whose key is served: that one is looked up and verifies
+                    let mut alt = b.s.signer.clone();
+                    if alt.labels.is_empty() {
+                        return None;
+                    }
+                    alt.labels.remove(0);
+                    let mut anc = good.clone();
+                    anc.signer = alt.clone();
+                    let bytes = anc.ref_case(&b.name, 1, &b.recs).ref_signed_data()?;
+                    anc.sig = sign_with(b.ki, &bytes);
+                    let mut k2 = b.k.clone();
+                    k2.owner = alt;
+                    let sigs = if r.chance(1, 2) { vec![good.clone(), anc.clone()] } else { vec![anc.clone(), good.clone()] };
+                    for _ in 0..2 {
+                        lines.push(to_hq(h_line_multi(t0 as u64, 0, &[b.k.clone(), k2.clone()], &sigs, &b.name, b.ty, &b.recs)?, &q));
+                    }
+                }
+                _ => {
+                    // the original DNSKEY query is for another name: no cycle, the RRSIG is evaluated
+                    let mut other = b.k.clone();
+                    other.owner = c05::nm("other.test.");
+                    if same_name_ci(&other.owner, &b.s.signer) {
+                        return None;
+                    }
+                    let q2 = other.owner.clone();
+                    for _ in 0..2 {
+                        lines.push(to_hq(h_line_multi(t0 as u64, 0, &[b.k.clone(), other.clone()], std::slice::from_ref(&good), &b.name, b.ty, &b.recs)?, &q2));
+                    }
+                }
+            }
+        }
         _ => {
             // wrong key first (Bogus is cached), then the right key; and the reverse
             resign(&mut b);
@@ -1931,8 +2299,9 @@ fn block(cfg: &str, lines: Vec<String>) -> Vec<String> {
     let mut tas: Vec<String> = vec![];
     for l in &lines {
         let t: Vec<&str> = l.split_whitespace().collect();
-        if t.len() > 4 && t[4] != "-" {
-            for k in t[4].split('|') {
+        let at = if t.first() == Some(&"hq") { 5 } else { 4 };
+        if t.len() > at && t[at] != "-" && t[at] != "!" {
+            for k in t[at].split('|') {
                 let f: Vec<&str> = k.split(';').collect();
                 let e = format!("{}:{}", f[2], f[3]);
                 if !tas.contains(&e) {
@@ -2013,8 +2382,45 @@ pub fn run(o: &Opts, rec: &mut Recorder) {
         let d = *r.pick(&[0u32, 1, 0x7FFF_FFFF, 0x8000_0000, 0x8000_0001, 0xFFFF_FFFF, x]);
         exec(&format!("serial {a} {}", a.wrapping_add(d)), rec);
     }
+    for _ in 0..o.n(60, 5_000) {
+        let x = r.next() as u32;
+        let y = *r.pick(&[0u32, 1, 0x7FFF_FFFF, 0x8000_0000, 0xFFFF_FFFF, r.0 as u32]);
+        exec(&format!("sadd {x} {y}"), rec);
+    }
     for k in all_keys() {
         exec(&format!("tag {}", hex(&k.rdata())), rec);
+    }
+    // every combination of the three defined flag bits (zone key, revoke, secure entry point), and all bits set
+    for flags in [0u16, 1, 0x80, 0x81, 0x100, 0x101, 0x180, 0x181, 0xFFFF, 0xFE7E] {
+        let mut k = real_key(0);
+        k.flags = flags;
+        exec(&format!("tag {}", hex(&k.rdata())), rec);
+    }
+    // edge paths of DnssecDnsHandle::send around a correctly signed answer (implementation only)
+    {
+        let mut sr = Rng::new(6064);
+        for _ in 0..o.n(6, 60) {
+            let mut b = gen_base_with(&mut sr, true);
+            while b.ty == 48 || b.recs.is_empty() {
+                b = gen_base_with(&mut sr, true);
+            }
+            b.s.inc = 1_700_000_000;
+            b.s.exp = 1_700_086_400;
+            b.k.owner = b.s.signer.clone();
+            if let Some(bytes) = b.s.ref_case(&b.name, 1, &b.recs).ref_signed_data() {
+                b.s.sig = sign_with(b.ki, &bytes);
+                for kind in ["plain", "update", "noquery", "depth0"] {
+                    let mut l = format!("sx {kind} {} {}", b.k.tok(), b.s.tok());
+                    for q in &b.recs {
+                        if let Some(t) = q.tok() {
+                            l.push(' ');
+                            l.push_str(&t);
+                        }
+                    }
+                    exec(&l, rec);
+                }
+            }
+        }
     }
     for _ in 0..o.n(100, 5_000) {
         let n = r.below(70) as usize;
@@ -2114,6 +2520,23 @@ pub fn run(o: &Opts, rec: &mut Recorder) {
             }
         }
     }
+    // unsupported-algorithm family (implementation only): DNSKEY and RRSIG name the same algorithm that the
+    // crypto backend does not support (RSAMD5, DSA, ECC-GOST, ED448, private, unassigned); all other checks pass
+    {
+        let mut ur = Rng::new(6065);
+        for _ in 0..o.n(2, 20) {
+            for alg in [1u8, 3, 6, 12, 16, 253, 255] {
+                let mut b = gen_base_with(&mut ur, true);
+                b.k.alg = alg;
+                b.s.alg = alg;
+                b.s.tag = ref_key_tag(&b.k.rdata());
+                if let Some(l) = vk_line(&b, Proof::Secure) {
+                    rec.stat(&format!("unsupported-algorithm.vkp.{alg}"));
+                    exec(&format!("vkp {}", l.strip_prefix("vk ").unwrap()), rec);
+                }
+            }
+        }
+    }
     // key-flag family: every flag value × {the zone's own DNSKEY RRset, a data RRset} through the hook,
     // and the DNSKEY RRset of the root zone through DnssecDnsHandle::send (implementation only)
     {
@@ -2155,11 +2578,11 @@ pub fn run(o: &Opts, rec: &mut Recorder) {
             exec(&l, rec);
         }
     }
-    for i in 0..o.n(1020, 34_000) {
+    for i in 0..o.n(1440, 48_000) {
         let mut rr = r.fork();
-        match catch(move || gen_history(&mut rr, i as u64 % 17)) {
+        match catch(move || gen_history(&mut rr, i as u64 % 24)) {
             Ok(Some(h)) => {
-                rec.stat(&format!("history.kind.{}", i % 17));
+                rec.stat(&format!("history.kind.{}", i % 24));
                 for l in h {
                     exec(&l, rec);
                 }
